@@ -29,11 +29,33 @@ struct vf_attr {
 	unsigned char name[NM];
 	unsigned char vlen;
 	unsigned char val[VM];
+	unsigned int ea_ino;		/* 0: value stored in the region; else number of the EA inode holding the value */
 };
 
 static int ref_up4(int x) { return (x + 3) / 4 * 4; }
-/* bytes an attribute occupies in a region: entry header + padded name + padded value */
-static int ref_space1(const struct vf_attr *a) { return 16 + ref_up4(a->nlen) + ref_up4(a->vlen); }
+/* bytes an attribute occupies in a region: entry header + padded name + padded value; a value kept in an EA inode occupies nothing in the region */
+static int ref_space1(const struct vf_attr *a) { return 16 + ref_up4(a->nlen) + (a->ea_ino ? 0 : ref_up4(a->vlen)); }
+
+/* hash stored in EA inode number ino, as the harness's inode-read stub reports it */
+static unsigned int ref_ea_seed;
+static unsigned int ref_inode_hash(unsigned int ino) { return ref_ea_seed + ino * 3u; }
+static unsigned int ref_rol32(unsigned int h, int k)
+{
+	unsigned long long w = h;
+	w = (w << k) | (w >> (32 - k));
+	return (unsigned int) (w & 0xffffffffULL);
+}
+/* entry hash of an attribute whose value lives in an EA inode (fs/ext4/xattr.c ext4_xattr_inode_verify_hashes):
+ * the name hash (5-bit rotation per unsigned name byte) folded once (16-bit rotation) with the inode's stored hash */
+static unsigned int ref_ea_entry_hash(const struct vf_attr *a)
+{
+	unsigned int h = 0;
+	int i;
+	for (i = 0; i < NM; i++)
+		if (i < a->nlen)
+			h = ref_rol32(h, 5) ^ a->name[i];
+	return ref_rol32(h, 16) ^ ref_inode_hash(a->ea_ino);
+}
 
 /* a well-formed model attribute: lengths in bound, name bytes are non-NUL up to nlen (C strings in the handle) */
 static int ref_attr_ok(const struct vf_attr *a)
@@ -138,8 +160,8 @@ static int ref_region_check(const unsigned char *r, int size, int corr,
 			return 2;
 		if (ref_byte(r, size, eo + 1) != a[i].idx)
 			return 3;
-		if (ref_le(r, size, eo + 4, 4) != 0)
-			return 4;			/* value_inum: value is in-line */
+		if (ref_le(r, size, eo + 4, 4) != a[i].ea_ino)
+			return 4;			/* value_inum: 0 = value is in-line, else the EA inode */
 		if (ref_le(r, size, eo + 8, 4) != a[i].vlen)
 			return 5;
 		for (b = 0; b < NM; b++)
@@ -147,6 +169,16 @@ static int ref_region_check(const unsigned char *r, int size, int corr,
 				return 6;
 		vo[i] = (int) ref_le(r, size, eo + 2, 2) - corr;
 		vs[i] = ref_up4(a[i].vlen);
+		if (a[i].ea_ino) {
+			if (ref_le(r, size, eo + 2, 2) != 0)
+				return 16;		/* value_offs is 0 for a value kept in an EA inode */
+			/* the entry hash is mandatory in BOTH layouts (the kernel verifies it against the inode's hash) */
+			if (ref_le(r, size, eo + 12, 4) != ref_ea_entry_hash(&a[i]))
+				return 17;
+			vs[i] = 0;
+			eo += 16 + ref_up4(a[i].nlen);
+			continue;
+		}
 		if (a[i].vlen) {
 			if (vo[i] < 0 || vo[i] + vs[i] > size)
 				return 7;		/* (padded) value leaves the region */
@@ -170,12 +202,12 @@ static int ref_region_check(const unsigned char *r, int size, int corr,
 		return 13;				/* terminator */
 	table_end = eo + 4;
 	for (i = 0; i < KMAX; i++) {
-		if (i >= k || a[i].vlen == 0)
+		if (i >= k || a[i].vlen == 0 || a[i].ea_ino)
 			continue;
 		if (vo[i] < table_end)
 			return 14;			/* value overlaps the entry table / terminator */
 		for (j = 0; j < KMAX; j++)
-			if (j < i && j < k && a[j].vlen != 0 &&
+			if (j < i && j < k && a[j].vlen != 0 && !a[j].ea_ino &&
 			    vo[i] < vo[j] + vs[j] && vo[j] < vo[i] + vs[i])
 				return 15;		/* two values overlap (e2fsck pass1 region check) */
 	}
